@@ -248,6 +248,38 @@ class Prov:
             if "cast" in m.group(2):
                 return A
             return self.lanewise(n, [A], 32)
+        # halves of a 256-bit register
+        if n == "_mm256_castsi256_si128" and a:
+            A = V(a[0])
+            return A[:16] if A and len(A) == 32 else None
+        if n == "_mm256_extracti128_si256" and a:
+            A = V(a[0])
+            if A is None or len(A) != 32 or not cg:
+                return None
+            return A[16:] if cg[0] & 1 else A[:16]
+        if n in ("_mm256_castsi128_si256", "_mm256_zextsi128_si256") and a:
+            A = V(a[0])
+            return (A + [Z] * 16) if A and len(A) == 16 else None
+        # zero / sign extension of the low elements, in linear order ACROSS the 128-bit lanes of
+        # the result (unlike unpack, which works inside each lane)
+        m = re.match(r"^_mm(256)?_cvtep([iu])(8|16|32)_epi(16|32|64)$", n)
+        if m and a:
+            A = V(a[0])
+            if A is None:
+                return None
+            fb, tb = int(m.group(3)) // 8, int(m.group(4)) // 8
+            outw = 32 if m.group(1) else 16
+            cnt = outw // tb
+            if cnt * fb > len(A):
+                return None
+            out = []
+            for i in range(cnt):
+                el = A[i * fb:(i + 1) * fb]
+                if m.group(2) == "u":
+                    out += el + [Z] * (tb - fb)
+                else:
+                    out += el + [lane_join(el)] * (tb - fb)     # sign bits depend on the element
+            return out
         if n == "_mm256_set_m128i" and len(a) == 2:
             hi, lo = V(a[0]), V(a[1])
             return (lo + hi) if hi and lo else None
